@@ -53,6 +53,7 @@ class Ctx:
     ret_bytes: bool = False
     locals_: set[str] = dataclasses.field(default_factory=set)
     tuples: dict[str, list[str]] = dataclasses.field(default_factory=dict)  # name -> element names (struct.unpack)
+    locks: list[str] = dataclasses.field(default_factory=list)  # `with <expr>:` blocks seen (body translated transparently)
 
 
 def dotted(node) -> str | None:
@@ -235,6 +236,8 @@ class FnTranslator:
                 out.append(d)
             elif isinstance(s, ast.If):
                 out += self.assigned(s.body) + self.assigned(s.orelse)
+            elif isinstance(s, ast.With):
+                out += self.assigned(s.body)
             elif isinstance(s, (ast.Return, ast.Raise, ast.Expr, ast.Pass)):
                 pass
             else:
@@ -276,6 +279,14 @@ class FnTranslator:
             return self.block(rest, cont, ind)  # docstring
         if isinstance(s, ast.Pass):
             return self.block(rest, cont, ind)
+        if isinstance(s, ast.With):
+            # a critical section: sequentially transparent; its presence is recorded (atomicity is a generated fact)
+            for item in s.items:
+                d = dotted(item.context_expr)
+                if d is None or item.optional_vars is not None:
+                    raise Untranslatable(f"with-statement other than `with <lock>:` (line {s.lineno})")
+                self.c.locks.append(d)
+            return self.block(list(s.body) + rest, cont, ind)
         if isinstance(s, ast.Return):
             if s.value is None:
                 raise Untranslatable("bare return")
